@@ -307,7 +307,7 @@ def filter_callback(repo, host_q, recv):
     cb = evs[0].args[0] if evs[0].args else evs[0].kw.get('condition')
     if cb is None or cb.closure is None:
         raise AnalysisError('%s: filter_nodes callback is not a function of the package' % host_q)
-    t, cpaths = Tracer(repo, no_inline=NI, follow_exceptions=False).trace_closure(cb)
+    t, cpaths = Tracer(repo, no_inline=NI, follow_exceptions=False).trace_closure(cb, heap=evs[0].heap)
     return fi, evs, t, cpaths
 
 
